@@ -17,6 +17,7 @@ import Mfi.Lemmas.AccL
 import Mfi.Props.C03
 import Mfi.Lemmas.WorldL
 import Mfi.Lemmas.WorldShape
+import Mfi.Lemmas.WorldTxSolv
 
 namespace Mfi.Props.C16
 open Mfi Mfi.Account Mfi.Gen
@@ -533,6 +534,11 @@ theorem world_transfer_spec {g : GroupV} {a o n : AcctV} {signer newKey newAuth 
     (h : transferIx g a signer newKey newAuth ok = .ok (o, n)) :
     o.slots = Transfer.zeroedSlots ∧ n.slots = a.slots ∧ o.key = a.key ∧ n.key = newKey ∧ Shape o.slots :=
   ⟨(transferIx_ok h).1, (transferIx_ok h).2.1, (transferIx_ok h).2.2.1, (transferIx_ok h).2.2.2, by rw [(transferIx_ok h).1]; exact zeroed_shape⟩
+
+/-- **world_shape_over_transactions**: … and over every sequence of TRANSACTIONS of the world state machine (whole instructions,
+    flash-loan and liquidation brackets, executed atomically): whatever happens inside a bracket, every account keeps 16 slots, at
+    most one position per bank, sorted -/
+theorem world_shape_over_transactions (w : WState) (txs : List (List TOp)) (h : WShape w) : WShape (w.runTxs txs) := runTxs_shape txs w h
 
 /-- a fresh account (16 empty slots) has the shape -/
 theorem empty_account_shape : Shape (List.replicate 16 Account.emptySlot) := by
